@@ -262,4 +262,19 @@ func init() {
 		)
 		props["C15"] = p
 	}
+
+	// ---- C08 ----
+	{
+		p := &Prop{ID: "C08", Outside: []string{
+			"non-ASCII letters; names longer than those of the template; more than one changed occurrence per run",
+			"local action / reusable workflow metadata keys (decoded through reflection)",
+			"the keys of JSON literals are changed concretely (two spellings), not symbolically: json.Unmarshal is native",
+		}}
+		p.Quick = []HRun{
+			{Entry: "HarnessC08Case", Bound: "43 name occurrences (definitions and uses of inputs, secrets, outputs, job/step ids, matrix keys, env keys, contexts, properties, ['literal'] indices, functions, action inputs, fromJSON accessors) x all 2^n letter-case spellings each", Require: []string{"variant"}},
+			{Entry: "HarnessC08Keywords", Bound: "true/false/null in every spelling with an upper-case letter; string literal contents", Require: []string{"keyword-variant"}},
+		}
+		p.Thorough = p.Quick
+		props["C08"] = p
+	}
 }
